@@ -8,6 +8,9 @@ CONSTANTS
   PubPaths = {1, 2}
   MaxRuns = 2
   Modes = {"sign"}
+  Iters = {1, 2}
+  OutPaths = {0, 1, 2}
+  MaxSteps = 2
   Variant = "reuse"
 INVARIANT KeyFreshPerRun
 CHECK_DEADLOCK FALSE
